@@ -20,9 +20,17 @@ TRUSTED = ["PyYAML 6 scanner/parser/composer", "the C04 model of Partial (>>) wh
 MODULE = '''
 from cobald.interfaces import Controller, PoolDecorator, Pool
 import copy
+import threading
 LOG = []
 FAIL = {}
 HELPER_LOG = []
+TOKENS = []
+
+class Token:
+    """an argument object whose identity matters (a shared connection, a credential store): it owns a lock"""
+    def __init__(self):
+        self.lock = threading.Lock()
+        TOKENS.append(self)
 
 def helper(*args, **kwargs):
     """a factory nested inside the arguments of a legacy element"""
@@ -36,7 +44,9 @@ class _Rec:
     def _record(self, cid, args, kwargs):
         if cid in FAIL:
             raise FAIL[cid]("constructor %d fails" % cid)
-        self._cid, self._args, self._kwargs = cid, copy.deepcopy(list(args)), copy.deepcopy(dict(kwargs))
+        self._raw = (list(args), dict(kwargs))       # the very objects that were handed over
+        keep = lambda v: v if isinstance(v, Token) else copy.deepcopy(v)
+        self._cid, self._args, self._kwargs = cid, [keep(a) for a in args], {k: keep(v) for k, v in kwargs.items()}
         LOG.append(self)
 
 def _mk(cid, base):
@@ -92,6 +102,7 @@ def setup(sy):
         COBalDLoader.add_constructor("!VhP8%sLazy" % f, yaml_constructor(P8.s, eager=False))
         COBalDLoader.add_constructor("!VhP8%sEager" % f, yaml_constructor(P8.s, eager=True))
         COBalDLoader.add_constructor("!VhP8%sRaw" % f, yaml_constructor(P8, eager=True))
+    COBalDLoader.add_constructor("!VhToken", lambda loader, node: mod.Token())
 
 
 def gen_value(rng, depth=2):
@@ -105,6 +116,16 @@ def gen_value(rng, depth=2):
 
 FAIL_EXC = ["ValueError", "TypeError", "KeyError", "AssertionError", "RuntimeError", "LookupError", "AttributeError",
             "IndexError", "OSError", "NotImplementedError"]
+
+
+SHARED = {"token": "<Token>", "mapping": {"p": 1, "q": [2]}}
+
+
+def cfg_value(v):
+    """configured value -> what the constructor is expected to report"""
+    if isinstance(v, dict) and "$shared" in v:
+        return SHARED[v["$shared"]]
+    return v
 
 
 def yaml_value(v):
@@ -139,11 +160,31 @@ def gen_case(rng):
     for e in elems:
         if e["form"] == "legacy" and rng.random() < 0.4:
             e["kwargs"].append([rng.choice(["aux", "helper"]), {"$helper": {k: rng.choice([1, "s", None]) for k in rng.sample(["p", "q"], rng.randint(0, 2))}}])
+    # one argument object shared by several elements through a YAML anchor / alias: every element is
+    # constructed with that very object (a plain mapping, or an object that cannot be copied at all)
+    holders = [e for e in elems if e["form"] in ("map", "legacy")]
+    if holders and rng.random() < 0.3:
+        kind = rng.choice(["token", "mapping"])
+        if kind == "mapping":
+            # (the content of a __type__ element is translated, which rebuilds its containers: only objects
+            # keep their identity there)
+            holders = [e for e in holders if e["form"] == "map"] or holders[:1]
+        for e in rng.sample(holders, rng.randint(1, min(3, len(holders)))):
+            e["kwargs"].append(["shared", {"$shared": kind}])
     return {"elems": elems, "fails": fail, "fail_exc": rng.choice(FAIL_EXC)}
 
 
 def to_yaml(case):
     lines = ["pipeline:"]
+    anchored = [False]
+
+    def dumps(v):
+        if isinstance(v, dict) and "$shared" in v:
+            if anchored[0]:
+                return "*sh"
+            anchored[0] = True
+            return "&sh !VhToken {}" if v["$shared"] == "token" else "&sh " + json.dumps(SHARED["mapping"])
+        return json.dumps(v)
     for e in case["elems"]:
         name = ("P8" if e["ctor"] == 8 else "E%d" % e["ctor"]) + ("F" if e.get("falsy") else "")
         tag = "!Vh%s%s" % (name, "Raw" if e["form"] == "raw" else ("Eager" if e["eager"] else "Lazy"))
@@ -154,11 +195,11 @@ def to_yaml(case):
         elif e["form"] == "map":
             lines.append("  - %s" % tag)
             for k, v in e["kwargs"]:
-                lines.append("    %s: %s" % (k, json.dumps(v)))
+                lines.append("    %s: %s" % (k, dumps(v)))
         else:
             lines.append("  - __type__: vh_c05mod.%s" % name)
             for k, v in e["kwargs"]:
-                lines.append("    %s: %s" % (k, json.dumps(yaml_value(v))))
+                lines.append("    %s: %s" % (k, dumps(yaml_value(v))))
     return "\n".join(lines) + "\n"
 
 
@@ -201,8 +242,10 @@ def impl(case):
     def canon(o):
         return {"ctor": o._cid, "args": plain(o._args), "kwargs": sorted(([k, plain(v)] for k, v in o._kwargs.items()), key=lambda kv: kv[0]),
                 "target": canon(o.target) if getattr(o, "target", None) is not None else None}
+    shared = [o._raw[1]["shared"] for o in objs if "shared" in o._raw[1]]
     return {"objs": [canon(o) for o in objs], "log": [o._cid for o in mod.LOG], "links": links,
-            "once": len({id(o) for o in mod.LOG}) == len(mod.LOG)}
+            "once": len({id(o) for o in mod.LOG}) == len(mod.LOG),
+            "shared_same": all(x is shared[0] for x in shared) and (not shared or not isinstance(shared[0], mod.Token) or shared[0] is mod.TOKENS[-1])}
 
 
 def argmap(case):
@@ -232,7 +275,7 @@ def expect(case, o, m):
     def conv(x):
         if x is None:
             return None
-        return {"ctor": x["ctor"], "args": [ids[a] for a in x["args"]], "kwargs": sorted(([k, ids[a]] for k, a in x["kwargs"]), key=lambda kv: kv[0]),
+        return {"ctor": x["ctor"], "args": [ids[a] for a in x["args"]], "kwargs": sorted(([k, cfg_value(ids[a])] for k, a in x["kwargs"]), key=lambda kv: kv[0]),
                 "target": conv(x["target"])}
     mo = None if m["objs"] is None else [conv(x) for x in m["objs"]]
     return {"objs": o["objs"], "log": o["log"]}, {"objs": mo, "log": m["log"]}
@@ -262,8 +305,10 @@ def oracle(case, o):
         out.append(("construction-order", "constructed %r, expected each once, last to first: %r" % (o["log"], exp_log)))
     if not all(o["links"]):
         out.append(("target-links", "some element's target is not the very next object: %r" % (o["links"],)))
+    if not o.get("shared_same", True):
+        out.append(("argument-identity", "an argument object shared by several elements (anchor / alias) reached them as different objects, or as a copy"))
     for e, got in zip(elems, o["objs"]):
-        if got["ctor"] != e["ctor"] or got["args"] != e["args"] or got["kwargs"] != sorted(e["kwargs"], key=lambda kv: kv[0]):
+        if got["ctor"] != e["ctor"] or got["args"] != e["args"] or got["kwargs"] != sorted(([k, cfg_value(v)] for k, v in e["kwargs"]), key=lambda kv: kv[0]):
             out.append(("arguments", "element %d constructed with %r / %r, configured %r / %r" % (e["ctor"], got["args"], got["kwargs"], e["args"], e["kwargs"])))
             break
     return out
